@@ -37,7 +37,26 @@ let walk_digest (l : Line.line) : string =
   done;
   string_of_int n ^ " " ^ !first ^ " " ^ !last ^ " " ^ string_of_int !h
 
+(* Styled<Line>::pixels() with stroke colour 1 and the given width: the ordered point list *)
+let sty w = { Style.fill_color = None; Style.stroke_color = Some (z_of_int 1); Style.stroke_width = z_in w;
+              Style.stroke_alignment = Style.Center; Style.stroke_kind = Style.Solid }
+let thick a b c d w : point list option =
+  match Thickline.styled_line_pixels (ln a b c d) (sty w) with
+  | None -> None
+  | Some l -> Some (Stdlib.List.map fst l)
+let rect_out (r : rect) = z_out r.tl.px ^ " " ^ z_out r.tl.py ^ " " ^ z_out r.sz.sw ^ " " ^ z_out r.sz.sh
+
 let init () =
+  register "thick_pixels" (function
+    | [a; b; c; d; w] -> (match thick a b c d w with None -> "FUEL" | Some l -> list_out cpt l)
+    | _ -> "BAD-ARGS");
+  register "thick_digest" (function
+    | [a; b; c; d; w] -> (match thick a b c d w with None -> "FUEL" | Some l -> digest l)
+    | _ -> "BAD-ARGS");
+  register "line_sbb" (function
+    | [a; b; c; d; w] -> (match Thickline.styled_line_bounding_box (ln a b c d) (sty w) with
+                          | None -> "FUEL" | Some r -> rect_out r)
+    | _ -> "BAD-ARGS");
   register "line_points" (function
     | [a; b; c; d] -> list_out cpt (Line.line_points (ln a b c d))
     | _ -> "BAD-ARGS");
